@@ -373,7 +373,36 @@ def shrink(pid, f, work, profile, budget=60):
             if chunk == 1:
                 break
             n = min(len(best), n * 2)
-    return bestf
+    return shrink_scalars(pid, head, best, bestf, work, profile, max(10, budget - (time.time() - t0)))
+
+
+def shrink_scalars(pid, head, ops, f, work, profile, budget):
+    """second pass: walk the decimal numbers of the (already op-minimal) case towards 0/1/half,
+    keeping every replacement under which the case still fails for this property"""
+    t0 = time.time()
+    line = " ; ".join([head] + ops)
+    pat = re.compile(r"(?<![0-9a-fA-Fx])\d+(?![0-9a-fA-F])")
+    pos = 0
+    while time.time() - t0 < budget:
+        ms = [m for m in pat.finditer(line) if m.start() >= pos and int(m.group()) > 1]
+        # never touch the stream name / table name tokens (first two words)
+        ms = [m for m in ms if m.start() > len(" ".join(line.split(" ")[:2]))]
+        if not ms:
+            break
+        m = ms[0]
+        v = int(m.group())
+        done = False
+        for cand in (0, 1, v // 2):
+            if cand >= v:
+                continue
+            trial = line[:m.start()] + str(cand) + line[m.end():]
+            r = still_fails(pid, trial, work, profile)
+            if r:
+                line, f, done = trial, r[0], True
+                break
+        if not done or cand in (0, 1):
+            pos = m.start() + 1 if not done else m.start() + len(str(cand))
+    return f
 
 
 # ---------------------------------------------------------------------------------------
